@@ -1,4 +1,4 @@
-"""C18 - rankings survive a round trip through text (parser level); any other text is parsed or refused with ValueError.
+"""C18 - rankings survive a round trip through text and through a file; any other text is parsed or refused with ValueError.
 
 [S]  Engine M with a bounded symbolic string model (vf/mstr.py) on the real source of parse_ranking_with_ties:
      * totality: the input is ANY string of length <= L over code points 0..127 (L symbolic characters and a symbolic
@@ -11,7 +11,8 @@
      The string model is validated on every run against CPython: the symbolic outcome is evaluated on random concrete
      strings and compared with the real function.
 [P]  above the parser: Ranking.from_string(str(r)) == r on concrete instances of every template (int and string names).
-Outside the claim: Dataset.write / from_file (file I/O; equality there is C17's string-based __eq__), code points >= 128.
+[S]  file round trip: write_rankings and get_rankings_from_file on a modelled file (see file_check).
+Outside the claim: the operating system's file layer, Dataset.__eq__ of the objects read back (C17), code points >= 128.
 """
 import itertools, random
 import z3
@@ -257,14 +258,216 @@ def concrete_roundtrip(_):
     return out
 
 
+
+# ---------------------------------------------------------------- file round trip: writer and reader around the parser
+class _Tmpl:
+    """a ranking handed to write_rankings: str() of it is the rendered line (layout of str(list of sets), symbolic names)"""
+    def __init__(self, chars):
+        self.chars = chars
+
+
+class _MFile:
+    is_model_context = True
+
+    def __init__(self, fs, path, mode):
+        self.fs, self.path, self.mode = fs, path, mode
+        if "w" in mode:
+            fs[path] = []
+
+    def write(self, x):
+        self.fs[self.path].extend(x.chars if isinstance(x, _Tmpl) else [z3.IntVal(ord(ch)) for ch in x])
+
+    def read(self):
+        buf = self.fs[self.path]
+        return MStr(list(buf), 0, len(buf))
+
+
+def file_check(args):
+    """[S] the real sources of write_rankings and get_rankings_from_file are executed by Engine M on a modelled file (a
+    buffer of code points; `open` returns a stand-in, the os.path tests answer what 'a fresh file in an existing directory'
+    means); the rankings written are templates with symbolic element names; the two parsers are stubbed (their own
+    round trip is the [S] template check above) and record the line they are given.  Claim: the reader hands to the
+    parser exactly the lines the writer wrote, in order, nothing dropped, nothing else; when the int parser refuses a
+    line (variant `refuse`), all lines go to the str parser.  With the parser-level round trip this composes to: the
+    rankings read back are the rankings written."""
+    import os
+    from corankco import utils
+    from vf import mstr
+    spec_lines, refuse = args
+    out = []
+    fs, lines, spans, evars_all, pre_c = {}, [], [], [], []
+    off = 0
+    for li, (shape, lens) in enumerate(spec_lines):
+        toks = render(shape, lens, True, "", "")
+        chars, names = [], {}
+        for t in toks:
+            if isinstance(t, str):
+                chars.append(z3.IntVal(ord(t)))
+            else:
+                v = z3.Int("f%d_e_%d_%d_%d" % ((li,) + t[1:]))
+                names.setdefault(t[1:3], []).append(v)
+                pre_c.append(ALPHABET_OK(v))
+                chars.append(v)
+        # names of one ranking are pairwise different
+        ks = list(names)
+        for a in range(len(ks)):
+            for b in range(a + 1, len(ks)):
+                if len(names[ks[a]]) == len(names[ks[b]]):
+                    pre_c.append(z3.Or(*[x != y for x, y in zip(names[ks[a]], names[ks[b]])]))
+        lines.append(_Tmpl(chars))
+        evars_all.append((shape, lens, names))
+        spans.append((off, len(chars)))
+        off += len(chars) + 1
+    mstr.SIDE.clear()
+    PATH = "/nowhere/dataset.txt"
+
+    def interp():
+        I = merge.new_interp(unwind=8)
+        I.ctx.bags = False
+        I.ctx.pre_solver = harness.solver(60000)
+        I.ctx.pre_solver.add(*pre_c)
+        I.models[open] = lambda I_, path, mode="r", encoding=None: _MFile(fs, path, mode)
+        I.models[os.path.isdir] = lambda I_, q: q == os.path.dirname(PATH)      # the directory exists, the path is not one
+        I.models[os.path.isfile] = lambda I_, q: False                            # fresh file
+        I.models[str] = lambda I_, x: x if isinstance(x, _Tmpl) else str(x)
+        return I
+    I = interp()
+    I.call_function(utils.write_rankings, [lines, PATH])
+    STATS.encoded.update(I.ctx.encoded)
+    if PATH not in fs:
+        return [{"signature": {"site": "write_rankings", "class": "nothing-written"}, "kind": "file", "what": "write_rankings wrote nothing to a fresh path in an existing directory",
+                 "rankings": None, "spec": [list(map(list, x)) for x in spec_lines]}]
+    calls = []
+
+    def parser(kind):
+        def model(I_, line):
+            calls.append((kind, line))
+            if kind == "int" and refuse is not None and sum(1 for k, _ in calls if k == "int") == refuse + 1:
+                I_.ctx.raises.append((I_.cur_guard, "ValueError"))
+            return line
+        return model
+    I2 = interp()
+    I2.models[utils.parse_ranking_with_ties_of_int] = parser("int")
+    I2.models[utils.parse_ranking_with_ties_of_str] = parser("str")
+    ret = I2.call_function(utils.get_rankings_from_file, [PATH])
+    STATS.encoded.update(I2.ctx.encoded)
+    s = harness.solver(300000)
+    s.add(*pre_c)
+    if harness.check(s, "vacuity") != "sat":
+        raise harness.HarnessError("vacuous")
+    buf = fs[PATH]
+
+    def cex(mdl, what):
+        rk = []
+        for shape, lens, names in evars_all:
+            rk.append([["".join(chr(harness.zval(mdl, v)) for v in names[(i, j)]) for j in range(shape[i])] for i in range(len(shape))])
+        return {"signature": {"site": "get_rankings_from_file", "class": what.split(":")[0]}, "kind": "file", "what": what, "rankings": rk,
+                "text": "".join(chr(harness.zval(mdl, c)) for c in buf)}
+    s.push()
+    s.check()
+    some = s.model()
+    s.pop()
+    for g, name in I2.ctx.raises + I.ctx.raises:
+        r, mdl = harness.refute(s, "property", merge.to_z3(g) if g is not True else z3.BoolVal(True))
+        if r == "sat":
+            out.append(cex(mdl, f"raises: reading back the written file raises {name}" + (" (int parser refused one line)" if refuse is not None else "")))
+            return out
+        if r != "unsat":
+            raise harness.Inconclusive("raise reachability unknown")
+    for II in (I, I2):
+        for txt, rr, mdl2 in merge.discharge_obligations(II, s):
+            if mdl2 is None:
+                raise harness.Inconclusive(txt)
+            out.append(cex(mdl2, "obligation: " + txt))
+    for g, cnd, txt in mstr.SIDE:
+        s.push()
+        if g is not True:
+            s.add(merge.to_z3(g))
+        r = harness.check(s, "model-side-condition", z3.Not(cnd))
+        s.pop()
+        if r != "unsat":
+            raise harness.Inconclusive(txt + ": side condition not proved")
+    if out:
+        return out
+    if not isinstance(ret, list) or not all(isinstance(x, MStr) for x in ret):
+        raise harness.HarnessError("unexpected return value of get_rankings_from_file")
+    if len(ret) != len(spans):
+        out.append(cex(some, f"lines: {len(spans)} rankings written, {len(ret)} lines reach the parser"))
+        return out
+    want = "str" if refuse is not None else "int"
+    used = [ln for k, ln in calls if k == want]
+    conj = [z3.And(v.start == st, v.length == ln) for v, (st, ln) in zip(ret, spans)]
+    conj += [z3.And(v.start == st, v.length == ln) for v, (st, ln) in zip(used, spans)]
+    if len(used) != len(spans):
+        out.append(cex(some, f"lines: {len(spans)} rankings written, {len(used)} lines handed to the {want} parser"))
+        return out
+    r, mdl = harness.refute(s, "property", z3.Not(z3.And(*conj)) if conj else z3.BoolVal(False))
+    if r == "sat":
+        out.append(cex(mdl, "lines: the text handed to the parser is not the line that was written"))
+    elif r != "unsat":
+        raise harness.Inconclusive("line-span query unknown")
+    STATS.states += 1
+    STATS.sample({"file": "|".join("".join(chr(c.as_long()) if z3.is_int_value(c) else "?" for c in t.chars) for t in lines),
+                  "int parser": "accepts" if refuse is None else f"refuses line {refuse}"}, cap=8)
+    return out
+
+
+def concrete_file_roundtrip(_):
+    """[P] above the reader: Dataset.write / Dataset.get_dataset_from_file on real temporary files"""
+    import tempfile, shutil, os
+    from corankco.dataset import Dataset
+    out = []
+    cases = [[[[1], [2, 3]], [[3], [1], [2]]], [[["a"], ["b", "c"]], [["c", "b", "a"]]], [[[5]]], [[["x1", "y"]], [["y"], ["x1"]]],
+             [[[10, 2]], [[2], [10]], [[2, 10]]], [[[1], [2]], [], [[2], [1]]], [[["a"]], []]]
+    tmp = tempfile.mkdtemp(prefix="vf_c18_")
+    try:
+        for i, c in enumerate(cases):
+            ok, detail = _file_rt(c, os.path.join(tmp, f"d{i}.txt"))
+            STATS.q["roundtrip-file-concrete:checked"] += 1
+            if not ok:
+                out.append({"signature": {"site": "Dataset.write/get_dataset_from_file", "class": "concrete"}, "kind": "file", "what": detail, "rankings": c})
+    finally:
+        shutil.rmtree(tmp, ignore_errors=True)
+    return out
+
+
+def _file_rt(rk, path):
+    from corankco.dataset import Dataset
+    ds = Dataset.from_raw_list([[set(b) for b in r] for r in rk])
+    before = [[sorted(str(e) for e in b) for b in r] for r in ds.rankings]
+    ds.write(path)
+    try:
+        back = Dataset.get_dataset_from_file(path)
+    except Exception as e:  # noqa
+        return False, f"reading back {before} raised {type(e).__name__}: {e}"
+    after = [[sorted(str(e) for e in b) for b in r] for r in back.rankings]
+    types_b = sorted({e.type.__name__ for r in ds.rankings for b in r for e in b})
+    types_a = sorted({e.type.__name__ for r in back.rankings for b in r for e in b})
+    if before != after or types_a != types_b:
+        return False, f"written {before} ({types_b}), read back {after} ({types_a})"
+    return True, "same rankings read back"
+
+
 def dispatch(a):
-    return {"t": totality, "r": roundtrip, "c": concrete_roundtrip, "w": wrapper_totality}[a[0]](a[1])
+    return {"t": totality, "r": roundtrip, "c": concrete_roundtrip, "w": wrapper_totality, "f": file_check, "fc": concrete_file_roundtrip}[a[0]](a[1])
 
 
 def run(run):
     Ls = [3, 5, 7, 9] if not run.thorough else [4, 6, 8, 10, 12]
-    jobs = [("t", L) for L in Ls] + [("c", 0), ("w", 4), ("w", 8)]
+    jobs = [("t", L) for L in Ls] + [("c", 0), ("w", 4), ("w", 8), ("fc", 0)]
     rnd = random.Random(run.seed)
+    # file round trip: every one-line file over the shapes (and the empty ranking), sampled two- and three-line files
+    fshapes = [[]] + SHAPES
+    flines = [(sh, [1] * sum(sh)) for sh in fshapes] + [(sh, [rnd.choice([1, 2, 3]) for _ in range(sum(sh))]) for sh in SHAPES]
+    files = [[l] for l in flines]
+    files += [[rnd.choice(flines) for _ in range(k)] for k in (2, 2, 2, 3, 3) for _ in range(3 if not run.thorough else 12)]
+    files += [[flines[1], flines[0], flines[3]], [flines[0], flines[2]], [flines[2], flines[0]]]
+    nfile = 0
+    files = [f for f in files if any(sh for sh, _ in f)]      # a dataset has at least one element
+    for f in files:
+        for refuse in [None] + list(range(len(f))):
+            jobs.append(("f", (f, refuse)))
+            nfile += 1
     for shape in SHAPES:
         for brace in (True, False):
             n = sum(shape)
@@ -275,11 +478,16 @@ def run(run):
                         jobs.append(("r", (shape, lens, brace, d)))
     run.bounds = {"totality [S]: strings of length <= L over code points 0..127, L in": Ls,
                   "round trip [S]: templates": sum(1 for j in jobs if j[0] == "r"), "shapes": SHAPES, "element lengths": "1-3 characters",
-                  "decorations": DECOR}
+                  "decorations": DECOR,
+                  "file round trip [S]: (file, refusing line) pairs": nfile, "files": "1-3 lines, each a rendered ranking (incl. the empty ranking) with symbolic names"}
     run.assumptions = ["bounded string model (vf/mstr.py): strip / split / replace / find / rfind / slices / endswith / == with CPython semantics for "
                        "code points < 128, validated against CPython on random strings on every run",
-                       "the converter (Element(str(x))) cannot fail on a str", "print and message formatting have no effect"]
-    run.outside = ["strings longer than the bounds", "code points >= 128 (Unicode whitespace / digits)", "Dataset.write / from_file (file I/O)",
+                       "the converter (Element(str(x))) cannot fail on a str", "print and message formatting have no effect",
+                       "file check: both parsers stubbed (assume-guarantee with the parser-level round trip); removal of the two-character "
+                       "pattern backslash-newline modelled as the identity under the proved side condition that it does not occur"]
+    run.outside = ["strings longer than the bounds", "code points >= 128 (Unicode whitespace / digits)",
+                   "the operating system's file layer (open / read / write are a buffer of code points; os.path answers 'fresh file in an existing directory'); files of more than 3 rankings; "
+                   "Dataset equality of the objects read back (C17) - rankings are compared bucket by bucket",
                    "the int-or-string decision above the parser is only exercised on concrete instances"]
     run.rule = "totality: one query per raise site and per obligation; round trip: two queries per template (no raise; buckets and spans equal)"
     run.pmap("string checks", dispatch, jobs)
@@ -295,6 +503,19 @@ def replay(p):
             return not (back == r), f"from_string({p['text']!r}) = {back}"
         except Exception as e:  # noqa
             return True, f"from_string({p['text']!r}) raised {type(e).__name__}: {e}"
+    if p["kind"] == "file":
+        import tempfile, shutil, os
+        tmp = tempfile.mkdtemp(prefix="vf_c18_")
+        try:
+            path = os.path.join(tmp, "dataset.txt")
+            if p.get("rankings") is None:
+                from corankco.dataset import Dataset
+                Dataset.from_raw_list([[{1}, {2}]]).write(path)
+                return not os.path.isfile(path), f"file written: {os.path.isfile(path)}"
+            ok, detail = _file_rt(p["rankings"], path)
+            return (not ok), detail
+        finally:
+            shutil.rmtree(tmp, ignore_errors=True)
     txt = p["text"]
     if p["kind"] == "wrapper":
         try:
